@@ -332,9 +332,14 @@ func (c *c29) run(ctx context.Context, start *pgsim.DB, seedRef func() *refState
 		labels = append(labels, opLabel(op))
 		v := ref.decide(cs.Mode == "strict", op)
 		before := dump(pg)
-		out := lx.Apply(ctx, ctrl, op)
+		out := safeApply(ctx, ctrl, op)
 		if out.Class == "ENGINE" || strings.HasPrefix(fmt.Sprint(out.Err), "harness:") {
 			c.r.EngineError(fmt.Sprintf("%v: %v", labels, out.Err))
+			return
+		}
+		if out.Class == "panic" {
+			c.r.Violation("C29:"+cs.Mode+":"+v.Reason+":panic",
+				fmt.Sprintf("%s mode, %v: the write neither succeeded nor was rejected: %v", cs.Mode, labels, out.Err), cs.replay())
 			return
 		}
 		after := dump(pg)
